@@ -1,1 +1,3 @@
 import Iodata.Props.C10
+import Iodata.Props.C06
+import Iodata.Props.C06Tables
